@@ -96,6 +96,8 @@ pub struct St {
     /// the step that produced this state was a spurious return of `Notify::wait` (such steps do
     /// not count as progress: loom also explores the execution in which the wake-up never comes)
     pub via_spurious: bool,
+    /// the thread that took that spurious return (255: none)
+    pub spur_by: u8,
 }
 
 #[derive(Clone, Copy, PartialEq, Eq, Debug)]
@@ -106,11 +108,14 @@ pub struct Mode {
     pub any_waiter: bool,
     /// `sync::Notify` objects have one spurious credit
     pub spurious: bool,
+    /// attribution variant (defect D20): the thread that took a spurious return yields, i.e. it
+    /// does not take the next step while another thread can
+    pub spur_yield: bool,
 }
 
 impl Mode {
     pub fn explore(p: &Program) -> Mode {
-        Mode { hb: p.objs.cells > 0, any_waiter: false, spurious: true }
+        Mode { hb: p.objs.cells > 0, any_waiter: false, spurious: true, spur_yield: false }
     }
 }
 
@@ -155,6 +160,7 @@ impl St {
             overlapped: false,
             user_panic: None,
             via_spurious: false,
+            spur_by: 255,
         };
         s.normalise(p);
         s
@@ -250,6 +256,7 @@ impl St {
         if self.via_spurious {
             let mut s = self.clone();
             s.via_spurious = false;
+            s.spur_by = 255;
             return s.succ(p, t, m);
         }
         let th = &self.th[t];
@@ -297,6 +304,7 @@ impl St {
                             let mut s2 = s.clone();
                             s2.ncredit[n] = false;
                             s2.via_spurious = true;
+                            s2.spur_by = t as u8;
                             s2.th[t].status = Status::Ready;
                             out.push((s2, None));
                         }
@@ -586,6 +594,7 @@ impl St {
                     s2.ncredit[n] = false;
                     s2.finish_op(p, t, Res::U, m);
                     s2.via_spurious = true;
+                    s2.spur_by = t as u8;
                     out.push((s2, Some(Res::U)));
                 }
                 if s.nflag[n] {
@@ -937,7 +946,22 @@ pub fn explore(p: &Program, m: Mode, max_states: u64) -> ScResult {
         }
         let mut any = false;
         let mut any_spurious = false;
+        // attribution variant: the thread that just returned spuriously yields to the others
+        let yielding: Option<usize> = if m.spur_yield && s.via_spurious && s.spur_by != 255 {
+            let t0 = s.spur_by as usize;
+            let others = (0..s.th.len()).any(|t| t != t0 && s.succ(p, t, m).iter().any(|(n, _)| !n.via_spurious));
+            if others {
+                Some(t0)
+            } else {
+                None
+            }
+        } else {
+            None
+        };
         for t in 0..s.th.len() {
+            if yielding == Some(t) {
+                continue;
+            }
             for (n, _r) in s.succ(p, t, m) {
                 let n = if p.objs.cells > 0 { n.absorb_cell_ops(p, t, m) } else { n };
                 if n.via_spurious {
